@@ -10,11 +10,17 @@ def main():
         with open(sys.argv[1]) as f:
             req = json.load(f)
     from pyvc import api
+    rng = None
+    if req.get('seed') is not None:
+        import random
+        rng = random.Random(req['seed'])
     out = api.run_native(req['module'], req['proof'], inputs=req['inputs'],
+                         rng=rng,
                          repo=req.get('repo', '/repo'),
                          sources=req.get('sources') or None)
     print(json.dumps({'failed': out['failed'],
-                      'checks_evaluated': len(out['checks']),
+                      'checks_evaluated': sum(out['counts'].values()),
+                      'first_fail': out['first_fail'],
                       'infeasible': out['infeasible'],
                       'missing': out['missing'],
                       'exception': out['exception']}, default=str))
